@@ -780,10 +780,15 @@ class HSystem:
         self.unit = getattr(self.raw['profile'], 'unit', None)
         p = _val(self.raw['profile'])
         signs = (int(np.sign(np.nanmax(p))), int(np.sign(np.nansum(p))))
+        # the root images were designed on the pinned tree so that the normalisation paths see every sign pattern / a NaN
+        # bin.  On a tree whose profiles are different (that is the business of the full product against the reference,
+        # part (C)) a root may no longer have its designed pattern: its histories are then skipped (counted), the other
+        # units still judge the tree.
+        self.not_as_designed = None
         if signs != H_SIGNS[ROOTS[root]['image']]:
-            raise RuntimeError(f'root {root}: (sign of max, sign of sum) of the profile is {signs}, not as designed')
-        if ROOTS[root]['image'] == 'nanbin' and ROOTS[root]['cls'] == 'rp' and not np.isnan(p).any():
-            raise RuntimeError(f'root {root}: the masked annulus was expected to give a NaN bin')
+            self.not_as_designed = f'root {root}: (sign of max, sign of sum) of the profile is {signs}, not as designed'
+        elif ROOTS[root]['image'] == 'nanbin' and ROOTS[root]['cls'] == 'rp' and not np.isnan(p).any():
+            self.not_as_designed = f'root {root}: the masked annulus was expected to give a NaN bin'
 
     def root_broken(self, acc):
         """An array of the fresh (never normalised) object raises: a violation of its own (the histories of this
@@ -792,6 +797,9 @@ class HSystem:
             acc.case(nontrivial=True)
             acc.violation('read-raises', f'{n}:{type(e).__name__}:fresh-object', {'kind': 'history', 'root': self.root, 'history': []},
                           repr(e), 'a value')
+        if not self.broken and getattr(self, 'not_as_designed', None):
+            acc.skip('history root not as designed on this tree (its histories are not explored): ' + self.not_as_designed)
+            return True
         return bool(self.broken)
 
     def initial(self):
